@@ -14,6 +14,9 @@
 //!    random bytes, zero/0xff runs, version and object-count fields, entry headers, zlib data, trailer) of such streams:
 //!    the call must return `Err` and leave the target directory empty, for a generated thread limit — unless real git
 //!    accepts the very same bytes. Runs in worker processes so that an abort is reported, not suffered.
+//!  * `header-fields`  exactly one fault in the 12-byte header of a small complete pack (version values, object-count
+//!    values incl. 0 / n+-1 / huge, every single-bit flip), same oracle; streams whose count field is huge are
+//!    evaluated in a child process of their own (the index writer pre-allocates by that count).
 use std::collections::{BTreeMap, BTreeSet};
 use std::path::{Path, PathBuf};
 use std::sync::atomic::AtomicBool;
@@ -521,6 +524,9 @@ fn known_header_class(stream: &[u8]) -> Option<&'static str> {
         Some("pack-version-3")
     } else if version == 2 && count == 0 && stream.len() > 32 {
         Some("zero-object-count")
+    } else if version == 2 && count >= 1 << 29 {
+        // the index writer pre-allocates by this count: evaluated in a process of its own
+        Some("huge-object-count")
     } else {
         None
     }
@@ -637,15 +643,58 @@ fn gen_fault(t: &mut Tape, pack: &[u8], offsets: &[u64]) -> (Fault, &'static str
     }
 }
 
+/// Probe mode (`VP_C10_PROBE=<stream file>`): run the code under test on one stream in this (expendable) process.
+fn probe_main() -> ! {
+    let var = |k: &str| std::env::var_os(k).map(PathBuf::from);
+    let stream = std::fs::read(var("VP_C10_PROBE").expect("probe stream")).expect("read probe stream");
+    let dir = var("VP_C10_PROBE_DIR").expect("probe dir");
+    let lookup = var("VP_C10_PROBE_LOOKUP");
+    let threads: usize = std::env::var("VP_C10_PROBE_THREADS").ok().and_then(|s| s.parse().ok()).unwrap_or(1);
+    match write_pack(&stream, &dir, lookup.as_deref(), threads) {
+        Ok(Ok(o)) => println!("accepted {:?}", o.index),
+        Ok(Err(e)) => println!("rejected {e}"),
+        Err(e) => {
+            println!("infra {e}");
+            std::process::exit(3);
+        }
+    }
+    std::process::exit(0)
+}
+
+/// Evaluate one stream in a child process; Ok(Ok(desc)) accepted, Ok(Err(msg)) rejected, Err((sig, msg)) died.
+fn write_pack_in_child(stream: &[u8], scratch: &Path, dir: &Path, lookup: Option<&Path>, threads: usize) -> Result<Result<Result<String, String>, (&'static str, String)>, String> {
+    let f = scratch.join("probe-stream");
+    std::fs::write(&f, stream).map_err(|e| e.to_string())?;
+    let exe = std::env::current_exe().map_err(|e| e.to_string())?;
+    let mut cmd = std::process::Command::new(exe);
+    cmd.env("VP_C10_PROBE", &f).env("VP_C10_PROBE_DIR", dir).env("VP_C10_PROBE_THREADS", threads.to_string());
+    if let Some(l) = lookup {
+        cmd.env("VP_C10_PROBE_LOOKUP", l);
+    }
+    let out = cmd.stdin(std::process::Stdio::null()).output().map_err(|e| format!("spawn probe: {e}"))?;
+    let stdout = String::from_utf8_lossy(&out.stdout).trim().to_string();
+    let stderr_tail: String = String::from_utf8_lossy(&out.stderr).lines().filter(|l| !l.trim().is_empty()).take(3).collect::<Vec<_>>().join(" | ");
+    Ok(match out.status.code() {
+        Some(0) if stdout.starts_with("accepted") => Ok(Ok(stdout)),
+        Some(0) if stdout.starts_with("rejected") => Ok(Err(stdout)),
+        Some(3) => return Err(format!("probe: {stdout}")),
+        Some(code) => Err(("child-panics", format!("the process evaluating the stream exited with status {code}: {stderr_tail}"))),
+        None => Err(("child-aborts", format!("the process evaluating the stream was killed ({}): {stderr_tail}", out.status))),
+    })
+}
+
 pub fn main() {
+    if std::env::var_os("VP_C10_PROBE").is_some() && !vp::fuzz::active() {
+        probe_main();
+    }
     let mut ck = Check::new("C10", "exploration");
-    ck.rule("world = generated history of 1..40 commits (14 paths incl. nested dirs/exec/symlink, a 15..45-file directory, a hot file collecting many versions, annotated tags) in a sender repo; receiver holds the first `base` commits (loose or repacked); stream = git pack-objects --stdout --revs {full clone | incremental complete | --thin against ^base} --delta-base-offset with depth in 0..50, window in 0..20, pack.compression in {default,0,1,9}. index: all thread limits {1,2,3,4,8,16}, lookup None or receiver odb. faults: 1..60 per world from 15 classes (truncations at header/entry/trailer positions, bit flips in header/entry header/data/trailer, multi-byte, 0x00/0xff/0x80 runs, version field, object-count field) x generated thread limit. Non-trivial (index): stored pack has a delta chain of depth >= 2 (threads > 1 are always exercised; thin is labelled). Non-trivial (faults): the fault lies behind the 12-byte header. Distinct by hash of import stream, pack options and faults.");
+    ck.rule("world = generated history of 1..40 commits (14 paths incl. nested dirs/exec/symlink, a 15..45-file directory, a hot file collecting many versions, annotated tags) in a sender repo; receiver holds the first `base` commits (loose or repacked); stream = git pack-objects --stdout --revs {full clone | incremental complete | --thin against ^base} --delta-base-offset with depth in 0..50, window in 0..20, pack.compression in {default,0,1,9}. index: all thread limits {1,2,3,4,8,16}, lookup None or receiver odb. faults: 1..60 per world from 15 classes (truncations at header/entry/trailer positions, bit flips in header/entry header/data/trailer, multi-byte, 0x00/0xff/0x80 runs, version field, object-count field) x generated thread limit. Non-trivial (index): stored pack has a delta chain of depth >= 2 (threads > 1 are always exercised; thin is labelled). Non-trivial (faults): the fault lies behind the 12-byte header. header-fields: one header fault (8 version values, 10 count values, 96 bit flips) on a 1..3-commit full pack; always non-trivial. Header classes version==3, count==0 and count>=2^29 are decided in header-fields only and skipped in faults. Distinct by hash of import stream, pack options and faults.");
     ck.assume(&format!("oracle: {} (fast-import, pack-objects, index-pack [--fix-thin], show-index, cat-file --batch, fsck)", Git::version()));
     ck.assume("streams use --delta-base-offset, as every client that advertises ofs-delta receives them; complete packs with in-pack REF_DELTA entries are documented as unsupported by index::File::write_data_iter_to_stream and are not generated");
     ck.assume("a faulted stream must be rejected unless real git index-pack accepts the very same bytes");
 
     // ---------------------------------------------------------------------------------------------------------------
-    ck.sub("index", SubCfg::new(40, 1_000).max_len(4000).max_shrink(30).threads(4), |t, c| {
+    ck.sub("index", SubCfg::new(40, 1_000).max_len(4000).max_shrink(12).threads(4), |t, c| {
         let mut rng = Rng(t.u64() | 1);
         let spec = gen_spec(t);
         let lookup_for_complete = t.bool();
@@ -872,7 +921,7 @@ pub fn main() {
     });
 
     // ---------------------------------------------------------------------------------------------------------------
-    ck.sub("faults", SubCfg::new(10, 250).max_len(4000).max_shrink(30).threads(4).isolated(600_000, false), |t, c| {
+    ck.sub("faults", SubCfg::new(10, 250).max_len(4000).max_shrink(12).threads(4).isolated(600_000, false), |t, c| {
         let mut rng = Rng(t.u64() | 1);
         let mut spec = gen_spec(t);
         spec.ncommits = spec.ncommits.min(16);
@@ -979,7 +1028,7 @@ pub fn main() {
     // ---------------------------------------------------------------------------------------------------------------
     // One fault in the 12-byte header of a small complete pack per case (the fault is decoded first, so a pinned case
     // is a two-byte tape).
-    ck.sub("header-fields", SubCfg::new(96, 2_400).max_len(700).max_shrink(30).threads(4).isolated(600_000, false), |t, c| {
+    ck.sub("header-fields", SubCfg::new(96, 2_400).max_len(700).max_shrink(20).threads(4).isolated(600_000, false), |t, c| {
         let (what, a, b) = (t.weighted(&[3, 3, 4]), t.u8(), t.u8());
         let threads = *t.pick(&THREAD_LIMITS);
         let with_lookup = t.bool();
@@ -1020,7 +1069,26 @@ pub fn main() {
         c.sample_with(|| format!("{label} {fault:?} on a pack of {n} objects / {} bytes, thread_limit {threads}, lookup {with_lookup}", pack.len()));
         let dir = w.world.scratch.join("fault");
         infra!(c, std::fs::create_dir_all(&dir), "mkdir");
-        let res = infra!(c, write_pack(&bad, &dir, with_lookup.then_some(w.receiver_objects.as_path()), threads), "open lookup odb");
+        let lookup = with_lookup.then_some(w.receiver_objects.as_path());
+        let res: Result<String, String> = if known_header_class(&bad) == Some("huge-object-count") {
+            if vp::fuzz::active() {
+                c.discard();
+                return;
+            }
+            c.label("huge-object-count");
+            match infra!(c, write_pack_in_child(&bad, &w.world.scratch.path, &dir, lookup, threads), "probe process") {
+                Ok(r) => r,
+                Err((kind, msg)) => {
+                    c.fail_sig(
+                        if kind == "child-aborts" { "huge-object-count-aborts" } else { "huge-object-count-panics" },
+                        format!("{label} {fault:?} (thread_limit {threads}, lookup {with_lookup}) on a {} byte stream with {n} objects: {msg}", pack.len()),
+                    );
+                    return;
+                }
+            }
+        } else {
+            infra!(c, write_pack(&bad, &dir, lookup, threads), "open lookup odb").map(|o| format!("{:?}", o.index))
+        };
         let left = list_recursive(&dir);
         match res {
             Err(_) => ensure_sig!(c, "rejected-but-files-left", left.is_empty(), "{label} {fault:?} was rejected but the directory holds {left:?}"),
@@ -1034,9 +1102,9 @@ pub fn main() {
                     c,
                     sig,
                     git_ok,
-                    "{label} {fault:?} (thread_limit {threads}, lookup {with_lookup}) of a {} byte stream with {n} objects was accepted ({:?}, files {left:?}); git index-pack rejects these bytes: {}",
+                    "{label} {fault:?} (thread_limit {threads}, lookup {with_lookup}) of a {} byte stream with {n} objects was accepted ({}, files {left:?}); git index-pack rejects these bytes: {}",
                     pack.len(),
-                    outcome.index,
+                    outcome,
                     String::from_utf8_lossy(&e).trim()
                 );
                 c.label("git-accepts-faulted-stream");
